@@ -3,9 +3,11 @@
 EXTENDS FieldsSet, Json, IOUtils
 
 Fd(n, k, das, req, owner) == [name |-> n, kind |-> k, das |-> das, req |-> req, owner |-> owner]
-Sh(id, fields, b, s, hasSub) == [id |-> id, fields |-> fields, deco |-> [base |-> b, sub |-> s], hasSub |-> hasSub, mixin |-> FALSE]
+Sh(id, fields, b, s, hasSub) == [id |-> id, fields |-> fields, deco |-> [base |-> b, sub |-> s], hasSub |-> hasSub, mixin |-> FALSE, generic |-> FALSE]
+\* a Generic[T] class (field g is of type T), observed through the parametrised form K[int] too
+ShGeneric(id, fields) == [id |-> id, fields |-> fields, deco |-> [base |-> TRUE, sub |-> FALSE], hasSub |-> FALSE, mixin |-> FALSE, generic |-> TRUE]
 \* the subclass lists a plain (undecorated, non-tracking) mixin BEFORE the tracked base: class K(Mixin, Base)
-ShMixin(id, fields, b, s) == [id |-> id, fields |-> fields, deco |-> [base |-> b, sub |-> s], hasSub |-> TRUE, mixin |-> TRUE]
+ShMixin(id, fields, b, s) == [id |-> id, fields |-> fields, deco |-> [base |-> b, sub |-> s], hasSub |-> TRUE, mixin |-> TRUE, generic |-> FALSE]
 
 MCShapes == {
   \* a single decorated class: defaulted fields, one default_as_set
@@ -29,7 +31,12 @@ MCShapes == {
                    Fd("m", "normal", FALSE, FALSE, "sub"), Fd("c", "normal", FALSE, FALSE, "sub") >>, TRUE, FALSE),
   \* the same with a decorated subclass
   ShMixin("S7", << Fd("a", "normal", FALSE, FALSE, "base"), Fd("w", "initvar", FALSE, FALSE, "base"),
-                   Fd("m", "normal", FALSE, FALSE, "sub"), Fd("c", "normal", TRUE, FALSE, "sub") >>, TRUE, TRUE) }
+                   Fd("m", "normal", FALSE, FALSE, "sub"), Fd("c", "normal", TRUE, FALSE, "sub") >>, TRUE, TRUE),
+  \* an InitVar declared BEFORE other init fields: positional arguments must be attributed by the signature
+  Sh("S8", << Fd("a", "normal", FALSE, TRUE, "base"), Fd("w", "initvar", FALSE, FALSE, "base"),
+              Fd("b", "normal", FALSE, FALSE, "base"), Fd("c", "normal", TRUE, FALSE, "base") >>, TRUE, FALSE, FALSE),
+  ShGeneric("S9", << Fd("a", "normal", FALSE, FALSE, "base"), Fd("g", "normal", FALSE, FALSE, "base"),
+                     Fd("c", "normal", TRUE, FALSE, "base") >>) }
 
 Emit == "EMIT" \in DOMAIN IOEnv /\ IOEnv.EMIT = "1"
 \* one line per reachable history: the operations and what must be observed after the last one
